@@ -89,7 +89,13 @@ class TrajProgram(ProgramBase):
         self.early = False
         if self.fail_at is None and scn.get("early_exit") and k.flip("early_exit", 0.5):
             # the program ends normally (code 0) before the requested number of steps
-            self.fail_at = (1 + k.choose("early_frames", self.nframes), 0)
+            nf = 1 + k.choose("early_frames", self.nframes)
+            hint = scn.get("early_hint")
+            if hint and k.flip("early_at_hint", 0.6):
+                # e.g. a wrapper script that ends the program soon after the frame the scenario
+                # expects to end the path
+                nf = max(1, min(self.nframes, int(hint) + k.choose("early_hint_extra", 2)))
+            self.fail_at = (nf, 0)
             self.early = True
             self.sim.k.fault("program_early_exit_0")
         self.linger = k.choose("linger", 3)
